@@ -144,8 +144,11 @@ def on_curve(curve, verts, res, tol, what):
                 f"(nearest parameter {fi:.6f} at or after the previous vertex's "
                 f"{f_prev:.6f}; tolerance {tol:.2e})")
         if i > 0 and not fi > f_prev:
-            raise Violation(f"{what}: vertex #{i} does not advance along the curve "
-                            f"(parameter {fi:.9f} after {f_prev:.9f})")
+            # two vertices closer to each other than the tolerance (e.g. the
+            # always-kept final sample right after a kept one) are fine
+            if math.dist(v, verts[i - 1]) > 2 * tol:
+                raise Violation(f"{what}: vertex #{i} does not advance along the curve "
+                                f"(parameter {fi:.9f} after {f_prev:.9f})")
         params.append(fi)
         f_prev, j_prev = fi, max(j - 1, j_prev)
     end_speed = max(1e-9, math.sqrt((curve.r1 - curve.r0) ** 2 +
@@ -163,6 +166,25 @@ def point_segment_distance(p, a, b):
     t = 0.0 if den == 0 else max(0.0, min(1.0, sum(x * y for x, y in zip(ap, ab)) / den))
     q = [a[i] + ab[i] * t for i in range(3)]
     return math.dist(p, q), t
+
+
+def segment_hits(p, a, b, radius, t_min=0.0):
+    """Earliest parameter t in [t_min, 1] at which the segment a->b is within
+    `radius` of point p, or None."""
+    ab = [b[i] - a[i] for i in range(3)]
+    ap = [a[i] - p[i] for i in range(3)]
+    A = sum(x * x for x in ab)
+    B = 2 * sum(x * y for x, y in zip(ab, ap))
+    C = sum(x * x for x in ap) - radius * radius
+    if A == 0:
+        return t_min if C <= 0 else None
+    disc = B * B - 4 * A * C
+    if disc < 0:
+        return None
+    r = math.sqrt(disc)
+    lo, hi = (-B - r) / (2 * A), (-B + r) / (2 * A)
+    lo, hi = max(lo, t_min, 0.0), min(hi, 1.0)
+    return lo if lo <= hi else None
 
 
 def arc_radius_geometry(start, target, R, major, cw):
